@@ -231,6 +231,15 @@ let get_text g root p =
   | Ok v -> "ok " ^ string_of_dm v
   | Err e -> "err " ^ gerr_name e
 
+(* Get(ParsePath(path.String())) relative to Get(path): "=" / "-" / the differing text *)
+let reparse_text g root (p : seg list) (get : string) : string =
+  let strs = List.map (fun sg -> string_of_bytes (seg_string sg)) p in
+  if not (List.for_all (fun x -> x <> "" && not (String.contains x '/')) strs) then "-" else begin
+    let back = parse_path (format_path p) in
+    let res = get_text g root back ^ (if segs_text back <> segs_text p then " path=" ^ segs_text back else "") in
+    if res = get then "=" else res
+  end
+
 let has_prefix s k = String.length s >= String.length k && String.sub s 0 (String.length k) = k
 
 (* is the hex string a an aligned substring of the hex string b *)
@@ -254,7 +263,8 @@ let c14v_oracle (obs : string) : string =
   if body <> "" then
     List.iter (fun v ->
         match String.split_on_char ';' v with
-        | [_path; reason; visited; get; focus; step] ->
+        | [_path; reason; visited; get; focus; step; rep] ->
+          if rep <> "=" && rep <> "-" then fail "reparse_differs";
           if visited <> "" && visited.[0] = 'l' then begin
             (* the walk visited a link node: a block whose root is itself a link; Get follows it *)
             if get <> "ok " ^ visited then fail "link_block_root_followed"
@@ -280,8 +290,9 @@ let c14v_model q sel root blocks =
       let vs = List.filter_map (fun e ->
           match e with
           | EVisit (p, nd, rs, _) ->
+            let gt = get_text g r p in
             Some (segs_text p ^ ";" ^ (match rs with RMatch -> "m" | RCand -> "x") ^ ";" ^ string_of_dm nd ^ ";" ^
-                  get_text g r p ^ ";=;=")
+                  gt ^ ";=;=;" ^ reparse_text g r p gt)
           | ELoad _ -> None) evs in
       String.concat "," vs ^ "|" ^ class_of o in
   model_obs
@@ -293,11 +304,13 @@ let c14v_line q id sel root blocks obs =
 
 let c14p_line id root blocks path obs =
   let g = parse_blocks blocks and r = dm_of_string root in
-  let model_obs = get_text g r (parse_segs path) ^ ";=;=" in
+  let gt = get_text g r (parse_segs path) in
+  let model_obs = gt ^ ";=;=;" ^ reparse_text g r (parse_segs path) gt in
   let verdict =
     match String.split_on_char ';' obs with
-    | [_; focus; step] ->
-      let fails = (if step <> "=" then ["get_vs_stepwise"] else []) @ (if focus <> "=" then ["focus_differs"] else []) in
+    | [_; focus; step; rep] ->
+      let fails = (if step <> "=" then ["get_vs_stepwise"] else []) @ (if focus <> "=" then ["focus_differs"] else []) @
+                  (if rep <> "=" && rep <> "-" then ["reparse_differs"] else []) in
       if fails = [] then "ok" else "fail:" ^ String.concat "," fails
     | _ -> "fail:malformed_obs" in
   print_string id; print_char '\t'; print_string model_obs; print_char '\t'; print_endline verdict
